@@ -334,30 +334,42 @@ func c09History(run *ev.Run, dir, payload string, compared *int64) {
 			}
 		}
 		// (2) a failed build (one script missing) must leave nothing behind for the next one
-		bad := mk()
-		for k, d := range defs {
-			if k == len(defs)-1 {
-				d.set(bad, filepath.Join(dir, "does-not-exist.sh"))
-			} else {
-				d.set(bad, paths[d.slot])
-			}
-		}
-		if r := buildYAML(bad.YAML(), f); r.Err == nil {
-			run.Violate("C09/"+f+"/missing-script-accepted", map[string]any{})
-		}
-		good := mk()
-		defs[0].set(good, paths[defs[0].slot])
-		third := buildYAML(good.YAML(), f)
+		// (every position of the missing script in turn, several rounds: what a
+		// failed build leaves in a recycled buffer depends on how far it got, and
+		// whether the next build meets that buffer on where the scheduler puts it)
 		run.Case("history|after-failed-build|"+f, true)
-		if third.Err != nil {
-			run.Violate("C09/"+f+"/build-error", map[string]any{"history": "build after a failed one", "error": third.Err.Error()})
-		} else {
+		for round := 0; round < 3*len(defs); round++ {
+			missing := (len(defs) - 1 + round) % len(defs)
+			bad := mk()
+			for k, d := range defs {
+				if k == missing {
+					d.set(bad, filepath.Join(dir, "does-not-exist.sh"))
+				} else {
+					d.set(bad, paths[d.slot])
+				}
+			}
+			if r := buildYAML(bad.YAML(), f); r.Err == nil {
+				run.Violate("C09/"+f+"/missing-script-accepted", map[string]any{"missing": defs[missing].slot})
+			}
+			keep := (missing + 1) % len(defs)
+			good := mk()
+			defs[keep].set(good, paths[defs[keep].slot])
+			third := buildYAML(good.YAML(), f)
+			if third.Err != nil {
+				run.Violate("C09/"+f+"/build-error", map[string]any{"history": "build after a failed one", "error": third.Err.Error()})
+				continue
+			}
 			p := dec.Decode(f, third.Bytes, false)
 			for k, d := range defs {
 				atomic.AddInt64(compared, 1)
-				_, ok := slotBytes(f, p, d.slot)
-				if ok != (k == 0) {
-					run.Violate("C09/"+f+"/slot-populated-without-config/after-failed-build", map[string]any{"slot": d.slot, "present": ok})
+				got, ok := slotBytes(f, p, d.slot)
+				if ok != (k == keep) {
+					run.Violate("C09/"+f+"/slot-populated-without-config/after-failed-build", map[string]any{"slot": d.slot, "present": ok, "missing_in_failed_build": defs[missing].slot})
+				} else if ok {
+					// the one configured script is the file as it is on disk now
+					if want := fmt.Sprintf("#!/bin/sh\n# LATER-%s-%s\nexit 0\n", f, d.slot); string(got) != want {
+						run.Violate("C09/"+f+"/slot-content/after-failed-build", map[string]any{"slot": d.slot, "got": ev.Short(string(got), 160), "want": want})
+					}
 				}
 			}
 		}
